@@ -14,7 +14,7 @@
 import Mhd.Proofs.PPUrl
 import Mhd.Proofs.PPMulti
 import Mhd.Proofs.PPUrlSafe
-import Mhd.Proofs.PPMxRt
+import Mhd.Proofs.PPMxSyn
 
 namespace Mhd.C15
 open Mhd.PP
@@ -296,6 +296,61 @@ example : ∃ pp, run 256 exCtype [(encodeItems (ofStr "AaB03x") exItems).take 7
     (by rw [h3]; exact exItemsOk) (by rw [h3]; exact exSplit _)
   exact ⟨pp, r1, r2, r3⟩
 
+/-- **… with a preamble.**  The body may start with arbitrary text before the first delimiter (RFC 2046
+    §5.1.1 allows a preamble and tells implementations to ignore it), as long as `"--" ++ B` does not start
+    inside it (`PreOk`, decidable): `PP_Init` skips it — up to the next `-` each time — and the rest is as
+    above. -/
+theorem multipart_preamble_roundtrip (n : Nat) (ctype : Bytes) (pp0 : PP) (items : List Item) (chunks : List Bytes)
+    (pre : Bytes) (hc : create n ctype = some pp0) (hu : pp0.isUrl = false) (hB : 1 ≤ pp0.boundary.length)
+    (hit : ∀ it ∈ items, ItemOk (n + 4) pp0.boundary it) (hpre : PreOk pp0.boundary pre)
+    (hch : chunks.flatten = pre ++ encodeItems pp0.boundary items) :
+    ∃ pp, run n ctype chunks = some (pp, true) ∧ pp.fault = none ∧ Delivers pp.evs (flat items) ∧
+      ∀ pre ch post, chunks = pre ++ ch :: post → (feed (feedAll pp0 pre) ch).2 = true :=
+  Mhd.PP.multipart_items_roundtrip_pre n ctype pp0 items chunks pre hc hu hB hit hpre hch
+
+/-- Non-vacuity: the items above after the preamble `This is a multi-part message.-\r\n`. -/
+example : ∃ pp, run 256 exCtype [ofStr "This is a multi-part message.-\r\n" ++ encodeItems (ofStr "AaB03x") exItems]
+      = some (pp, true) ∧ pp.fault = none ∧ Delivers pp.evs (flat exItems) := by
+  obtain ⟨pp0, h1, h2, h3⟩ := exCreate
+  obtain ⟨pp, r1, r2, r3, _⟩ := multipart_preamble_roundtrip 256 exCtype pp0 exItems _
+    (ofStr "This is a multi-part message.-\r\n") h1 h2 (by rw [h3]; decide +kernel)
+    (by rw [h3]; exact exItemsOk) (by rw [h3]; unfold PreOk; decide +kernel)
+    (by rw [h3, List.flatten_cons, List.flatten_nil, List.append_nil])
+  exact ⟨pp, r1, r2, r3⟩
+
+/-- **Round trip in the reference encoding under purely syntactic side conditions** (`PartPlain`): name and
+    file name without NUL, `"`, CR, LF; content type and transfer encoding without NUL, CR, LF; content
+    type not `multipart/mixed`; every header line shorter than the buffer; plus `boundaryFresh`.  (After
+    fix F34 the line parser reads every such header back exactly: `Mhd.PP.hdr_of_plain`.) -/
+theorem multipart_roundtrip_syntactic (n : Nat) (ctype : Bytes) (pp0 : PP) (parts : List Part) (chunks : List Bytes)
+    (hc : create n ctype = some pp0) (hu : pp0.isUrl = false) (hB : 1 ≤ pp0.boundary.length)
+    (hfresh : boundaryFresh pp0.boundary parts = true) (hp : ∀ p ∈ parts, PartPlain (n + 4) p)
+    (hch : chunks.flatten = encodeMultipart pp0.boundary parts) :
+    ∃ pp, run n ctype chunks = some (pp, true) ∧ pp.fault = none ∧ Delivers pp.evs (parts.map fieldOf) ∧
+      ∀ pre ch post, chunks = pre ++ ch :: post → (feed (feedAll pp0 pre) ch).2 = true :=
+  Mhd.PP.multipart_roundtrip_syntactic n ctype pp0 parts chunks hc hu hB hfresh hp hch
+
+/-- Non-vacuity of `PartPlain`: the file field of `exParts` and a name that used to trip the parser. -/
+def exQuirk : Part :=
+  { name := ofStr "a filename=", filename := some (ofStr "y.txt"), ctype := some (ofStr "text/plain; x=\"y\""), enc := some (ofStr "binary"), value := [] }
+
+example : PartPlain (256 + 4) exQuirk := by
+  refine ⟨by unfold Plain; decide +kernel, ?_, ?_, ?_, ?_⟩
+  · intro f hf; cases hf; unfold Plain; decide +kernel
+  · intro t ht; cases ht; exact ⟨by unfold NoCtl; decide +kernel, by decide +kernel⟩
+  · intro e he; cases he; unfold NoCtl; decide +kernel
+  · decide +kernel
+
+/-- **Epilogue.**  What the code does with bytes after the closing delimiter line `--B-- CRLF`: they are
+    NOT ignored — `PP_Done` with more data makes `MHD_post_process` return `MHD_NO` (state `PP_Error`) and
+    `MHD_destroy_post_processor` return `MHD_NO`; the fields have all been delivered before.  Kernel-checked
+    on the body of `exParts` followed by the epilogue `x` (one call): both results `MHD_NO`, 2 iterator
+    calls.  (RFC 2046 §5.1.1 says an epilogue is to be ignored; the property text does not cover it.  A
+    trailing CRLF-less end `--B--` is accepted: `PP_Done` with `skip_rn = RN_Full`.) -/
+example : ((create 256 exCtype).map fun pp0 =>
+      let r := feed pp0 (encodeMultipart (ofStr "AaB03x") exParts ++ ofStr "x")
+      (r.2, (destroy r.1).2, r.1.evs.length, r.1.fault)) = some (false, false, 2, none) := by decide +kernel
+
 /-! Finding F34 (fixed in /repo 3c7e4de, model follows the fixed code): before the fix `try_get_value`
     matched ` filename=` inside the quoted name and `try_match_header` matched a header name anywhere in a
     line.  Kernel-checked: with the fixed parser the `hdr` clause of `PartOk` holds for these conforming
@@ -307,11 +362,10 @@ example : (hdrLines { name := ofStr "k", ctype := some (ofStr "text/plain; x=\"C
     = metaP { name := ofStr "k", ctype := some (ofStr "text/plain; x=\"Content-Transfer-Encoding: foo\""), value := [] } := by decide +kernel
 
 /-
-  Still not proved: a purely syntactic sufficient condition for the `hdr` clauses of `PartOk` / `RPartOk` /
-  `ItemOk` (they are decidable predicates stated with the line parser `hdrM` itself; after fix F34 the
-  expected condition is: no CR/LF/NUL/`"` in the four strings — the missing lemmas are the walks of
-  `tryGetValueGo` / `eqCaselessN` over `dispLine p` with symbolic name and file name), and a preamble before
-  the first delimiter (the `PP_Init` garbage skip; correspondence run only).
+  Still not proved: the syntactic condition is proved for the reference rendering of top-level fields
+  (`PartPlain`); for arbitrary renderings / nested containers the `hdr` clauses of `RPartOk` / `ItemOk` stay
+  decidable predicates stated with the line parser `hdrM`.  The epilogue behaviour (rejected) is shown on
+  a witness only, not as a theorem over all bodies and splits.
 -/
 
 end Mhd.C15
